@@ -2,6 +2,7 @@
 from __future__ import annotations
 
 import collections
+import contextlib
 import json
 import os
 import random
@@ -33,7 +34,34 @@ ASSUMPTIONS = [
 ]
 
 
+def gen_churn(rng, max_len):
+    """A population of clients that come and go (seed G16: bookkeeping per connection must not
+    confuse a later client with an earlier one): the oldest live client leaves, a new one connects,
+    every live client keeps being served."""
+    labels = ["start"]
+    live, nconn = [], 0
+    for _ in range(rng.randint(2, 3)):
+        labels.append("connect"); live.append(nconn); nconn += 1
+    while len(labels) < max_len:
+        x = rng.random()
+        if x < 0.3 and live:
+            labels.append(f"leave {live.pop(0 if rng.random() < 0.7 else rng.randrange(len(live)))}")
+        elif x < 0.55:
+            labels.append("connect"); live.append(nconn); nconn += 1
+        elif live:
+            labels.append(f"send {rng.choice(live)}")
+    for c in live:
+        labels.append(f"send {c}")
+    labels.append("stop")
+    rng.shuffle(live)
+    for c in live:
+        labels.append(f"leave {c}")
+    return labels
+
+
 def gen_labels(rng, max_len):
+    if rng.random() < 0.25:
+        return gen_churn(rng, max_len + 4)
     labels = ["start"] if rng.random() < 0.9 else []
     nconn, stopped = 0, False
     pending = []      # connections opened whose handshake line was not sent yet
@@ -141,6 +169,96 @@ def job_random(seed, count, max_len, cli_every):
     return res
 
 
+def job_cli_slow(kind, wait_s):
+    """The bundled CLI client and a command the server takes long to answer (seed G17): every
+    command typed at the prompt is answered under that prompt with its own reply, however long the
+    pool method waits - `gather-and-close` while a task still needs `wait_s` seconds.  A direct
+    check on the implementation with real time; the model has no clock (what it says is only that
+    each line gets exactly its own reply: C18_one_reply_per_line / C19_clients_served)."""
+    import asyncio
+    import re
+    import shutil
+    import sys
+    import tempfile
+    import srvrun
+    from asyncio_taskpool.control.server import TCPControlServer, UnixControlServer
+    from asyncio_taskpool.pool import TaskPool
+    fails, seen = [], []
+    want = [("is-locked", "False"), ("num-running", "1"), ("gather-and-close", "ok"), ("is-locked", "True"),
+            ("num-running", "0")]
+
+    async def work():
+        await asyncio.sleep(wait_s)
+
+    async def go():
+        pool = TaskPool(name="slowpool")
+        tmp = tempfile.mkdtemp(prefix="verif-c19s-")
+        env = dict(os.environ)
+        env["PYTHONPATH"] = os.path.join(core.REPO, "src")
+        if kind == "unix":
+            path = os.path.join(tmp, "s.sock")
+            server, args = UnixControlServer(pool, socket_path=path), ["unix", path]
+        else:
+            port = srvrun.free_port()
+            server, args = TCPControlServer(pool, host="127.0.0.1", port=port), ["tcp", "127.0.0.1", str(port)]
+        task = await server.serve_forever()
+        pool.apply(work)
+        proc = await asyncio.create_subprocess_exec(
+            sys.executable, "-m", "asyncio_taskpool.control", *args, stdin=asyncio.subprocess.PIPE,
+            stdout=asyncio.subprocess.PIPE, stderr=asyncio.subprocess.DEVNULL, env=env)
+        out = ""
+
+        def replies():
+            return [m for m in re.findall(r"> ([^\n>][^\n]*)\n", out)]
+        try:
+            for i, (cmd, exp) in enumerate(want):
+                proc.stdin.write(cmd.encode() + b"\n")
+                await proc.stdin.drain()
+                deadline = asyncio.get_running_loop().time() + wait_s + 6
+                while len(replies()) <= i and asyncio.get_running_loop().time() < deadline:
+                    try:
+                        data = await asyncio.wait_for(proc.stdout.read(65536), 0.2)
+                    except asyncio.TimeoutError:
+                        continue
+                    if not data:
+                        break
+                    out += data.decode(errors="replace")
+                got = replies()
+                seen.append((cmd, got[i] if len(got) > i else None))
+                if len(got) <= i:
+                    fails.append({"what": f"the CLI client showed no reply to '{cmd}' within {wait_s + 6:.0f}s "
+                                          f"(the pool method needs {wait_s:.0f}s)", "transcript": out[-400:]})
+                    break
+                if got[i].strip() != exp:
+                    fails.append({"what": f"the CLI client showed '{got[i]}' under '{cmd}', its reply is '{exp}'",
+                                  "transcript": out[-400:]})
+                    break
+        finally:
+            with contextlib.suppress(Exception):
+                proc.kill()
+            task.cancel()
+            with contextlib.suppress(BaseException):
+                await asyncio.wait_for(task, 2)
+            shutil.rmtree(tmp, ignore_errors=True)
+
+    loop = asyncio.new_event_loop()
+    asyncio.set_event_loop(loop)
+    try:
+        loop.run_until_complete(asyncio.wait_for(go(), wait_s * 2 + 40))
+    except Exception as e:
+        fails.append({"what": "slow-reply scenario did not finish: " + repr(e)})
+    finally:
+        for t in asyncio.all_tasks(loop):
+            t.cancel()
+        with contextlib.suppress(BaseException):
+            loop.run_until_complete(asyncio.wait_for(asyncio.sleep(0.05), 1))
+        asyncio.set_event_loop(None)
+        with contextlib.suppress(BaseException):
+            loop.close()
+    return [{"id": f"cli-slow-{kind}-{wait_s}", "kind": kind, "labels": [f"cli-slow {wait_s}"], "clients": ["cli"],
+             "lines": [f"{c} -> {r}" for c, r in seen], "fails": fails, "checks": len(seen), "slow": wait_s}]
+
+
 CORPUS = [
     ("unix", ["start", "connect", "send 0", "leave 0", "stop"], ["raw"]),
     ("tcp", ["start", "connect", "send 0", "leave 0", "stop"], ["raw"]),
@@ -171,6 +289,11 @@ CORPUS = [
     # ... whereas a connection reset takes the transport with it
     ("tcp", ["start", "connect", "sendwait 0", "abort 0", "stop", "connect"], ["raw"]),
     ("unix", ["start", "connect", "connect", "send 0", "abort 0", "send 1", "stop", "abort 1"], ["raw", "raw"]),
+    # clients come and go: a later client must not be mistaken for an earlier one (seed G16)
+    ("unix", ["start", "connect", "connect", "leave 0", "connect", "leave 1", "send 2", "send 2", "stop", "leave 2"],
+     ["raw", "raw", "raw"]),
+    ("tcp", ["start", "connect", "connect", "connect", "leave 1", "connect", "leave 0", "send 3", "leave 2", "send 3",
+             "connect", "send 4", "stop", "leave 3", "leave 4"], ["raw", "raw", "raw", "raw", "raw"]),
     # restart of the same server object after a completed stop
     ("unix", ["start", "connect", "stop", "leave 0", "start", "connect", "send 1", "stop", "send 1", "connect"],
      ["raw", "raw"]),
@@ -182,6 +305,9 @@ CORPUS = [
 def jobs(tier, seed):
     js = [("prop_srv", "job_scn", {"kind": k, "labels": l, "clients_kind": c, "name": f"corpus-{i}"})
           for i, (k, l, c) in enumerate(CORPUS)]
+    # the CLI client under a slow server (first, so that the wait overlaps everything else)
+    js.insert(0, ("prop_srv", "job_cli_slow", {"kind": "unix" if seed % 2 else "tcp",
+                                               "wait_s": 6.0 if tier == "quick" else 33.0}))
     n, cnt = (12, 3) if tier == "quick" else (48, 8)
     for k in range(n):
         js.append(("prop_srv", "job_random", {"seed": seed * 31 + k, "count": cnt, "max_len": 12,
@@ -196,7 +322,7 @@ def main(pid, tier, seed, replay):
     if os.path.exists(core.DRIVER):
         if replay:
             j = json.load(open(replay))
-            js = [("prop_srv", "job_scn", j["kwargs"])]
+            js = [("prop_srv", j.get("job", "job_scn"), j["kwargs"])]
         else:
             js = jobs(tier, seed)
         recs = lockstep.run_jobs(js, timeout=900)
@@ -210,7 +336,10 @@ def main(pid, tier, seed, replay):
         confirmed = []
         lockstep._init_worker()
         for r in failing[:4]:
-            again = job_scn(r["kind"], r["labels"], r["clients"], r["id"] + "-again")[0]
+            if r.get("slow"):
+                again = job_cli_slow(r["kind"], r["slow"])[0]
+            else:
+                again = job_scn(r["kind"], r["labels"], r["clients"], r["id"] + "-again")[0]
             if again.get("fails"):
                 confirmed.append(again)
         failing = confirmed
@@ -219,7 +348,9 @@ def main(pid, tier, seed, replay):
         path = core.write_replay(pid, "violation.json", {
             "property": pid, "kind": "implementation-differs-from-verified-model", "failure": r["fails"][0],
             "trace": r["lines"], "found_in": r["id"],
-            "kwargs": {"kind": r["kind"], "labels": r["labels"], "clients_kind": r["clients"], "name": "replay"},
+            "job": "job_cli_slow" if r.get("slow") else "job_scn",
+            "kwargs": ({"kind": r["kind"], "wait_s": r["slow"]} if r.get("slow") else
+                       {"kind": r["kind"], "labels": r["labels"], "clients_kind": r["clients"], "name": "replay"}),
             "how_to_replay": f"./check {pid} --replay <this file>"})
         print(f"VIOLATION property={pid} replay={path}")
         exit_code = 1
